@@ -146,7 +146,7 @@ def run(rep, tier):
                 ordinal = sum(1 for x in f.walk() if x['k'] == 'CXXCatchStmt' and exc.norm(x.get('caught')) == 'uscxml::ErrorEvent' and x['loc'][1] < n['loc'][1])
                 rep.check(w is None, 'R07.3', '%s|catch#%d' % (q, ordinal), locstr(n),
                           'catch(ErrorEvent): %s' % ('every path enqueues the error internally or re-throws it typed' if w is None else 'a path leaves the handler without raising the error event'))
-    rep.minimum('R07.3', n_h, 8, 'catch(ErrorEvent) handlers on the executable-content path')
+    rep.minimum('R07.3', n_h, 5, 'catch(ErrorEvent) handlers on the executable-content path')
 
     # ---- R07.4  one failure, one error event
     n4 = 0
